@@ -26,7 +26,8 @@ one_neutral() {
     [ $rc -ne 0 ] && bad="$bad $p:$rc"
   done
   exp=$(/venv/bin/python -c "import json;print(json.load(open('/verif/neutral/STATUS.json'))['expected'].get('$id','silent')[:18])")
-  if [ -z "$bad" ]; then echo "NEUTRAL $id silent"; elif [ "$exp" = "known-false-alarm:" ]; then echo "NEUTRAL $id flagged (listed in neutral/STATUS.json as a known false alarm):$bad"; else echo "NEUTRAL $id FLAGGED$bad"; fi
+  only2=yes; for b in $bad; do [ "${b##*:}" = 2 ] || only2=no; done
+  if [ -z "$bad" ]; then echo "NEUTRAL $id silent"; elif [ "$exp" = "known-false-alarm:" ] && [ $only2 = yes ]; then echo "NEUTRAL $id undecided only (exit 2; listed in neutral/STATUS.json with the reason):$bad"; elif [ "$exp" = "known-false-alarm:" ]; then echo "NEUTRAL $id flagged (listed in neutral/STATUS.json as a known false alarm):$bad"; else echo "NEUTRAL $id FLAGGED$bad"; fi
   git -C /repo worktree remove --force "$wt" >/dev/null 2>&1
 }
 export -f one_seed one_neutral
